@@ -113,7 +113,8 @@ def alphabet(version):
                   f"{n};255;4;0;0;", f"{n};255;4;0;9;", f"{n};255;3;0;99;", f"{n};255;3;0;0;nan", f"{n};255;3;0;0;-inf", f"{n};255;3;0;0;1e999",
                   f"{n};255;3;0;0;100.4", f"{n};255;3;0;0;-0.4", f"{n};255;3;0;0; 55", f"{n};255;3;0;0;5_5", f"{n};255;3;0;0;", f"{n};255;3;0;22;-7",
                   f"{n};2;0;0;14;heater", f"{n};2;1;0;22;1", f"{n};4;0;0;23;custom", f"{n};4;1;0;0;7", f"{n};4;1;0;24;v", f"{n};2;1;0;21;Off"]
-    lines += ["0;255;3;0;15;", "0;255;3;0;16;", "1;255;3;0;17;abc", "0;255;3;0;2;1.5.0", "0;255;3;0;2;1.4.1", "1;255;3;0;abc;57", "0;255;3;0;;2.2", "1;1;1;0;x;1", "1;255;3;0;3.0;", "1;255;4;0;zz;",
+    lines += ["0;255;3;0;2;2", "0;255;0;0;18;2", "0;255;3;0;2;latest", "0;255;3;0;2;2.x", "0;255;3;0;2;1", "0;255;0;0;18;dev", "0;255;3;0;2;2.2-beta",
+              "0;255;3;0;2;v2.1", "0;255;3;0;2;2.", "0;255;3;0;2;.2", "0;255;3;0;15;", "0;255;3;0;16;", "1;255;3;0;17;abc", "0;255;3;0;2;1.5.0", "0;255;3;0;2;1.4.1", "1;255;3;0;abc;57", "0;255;3;0;;2.2", "1;1;1;0;x;1", "1;255;3;0;3.0;", "1;255;4;0;zz;",
               "255;255;3;0;3;", "0;255;3;0;14;ready", "0;255;3;0;9;log", "0;255;3;0;2;2.2.0", "0;255;3;0;2;2.0.0", "0;255;3;0;2;1.5.1", "0;255;3;0;2;garbage",
               "0;255;3;0;2;", "1;2", "", "x;1;1;0;0;1", "1;1;1;0;0", "256;1;1;0;0;1", "1;255;1;0;0;1", "1;1;3;0;0;1", "1;1;3;0;3;"]
     return lines
@@ -139,6 +140,12 @@ def scripted(ver):
         pres + [("recv", wake), ("send", 1, 1, 1, 0, 0, "25", True), ("recv", "1;1;2;0;0;"), ("recv", wake), ("recv", wake)],
         [("recv", "0;255;3;0;2;"), ("recv", "0;255;3;0;2;abc"), ("recv", "3;255;3;0;2;n/a"), ("recv", "0;255;3;0;2;2.3.2"), ("recv", "0;255;3;0;9;log")],
         [("recv", f"0;255;0;0;18;{v}"), ("recv", "0;255;3;0;2;2.0.0"), ("recv", f"0;255;0;0;18;{v}"), ("recv", "0;255;3;0;32;")],
+        # version reports that a version library may accept although they have no minor section, or a modifier
+        [("recv", "0;255;3;0;2;2"), ("recv", "0;255;0;0;18;2"), ("recv", "0;255;3;0;2;latest"), ("recv", "0;255;3;0;2;1"), ("recv", "0;255;3;0;2;2.2-beta"),
+         ("recv", "0;255;3;0;2;v2.1"), ("recv", "0;255;0;0;18;dev"), ("recv", "0;255;3;0;9;log")],
+        # a node that restarts (presents again, so it is not known to be sleeping any more) between two sends for one key
+        pres + [("recv", wake), ("send", 1, 1, 1, 0, 0, "1", True), ("recv", f"1;255;0;0;17;{v}"), ("recv", "1;1;0;0;6;temp"),
+                ("send", 1, 1, 1, 0, 0, "0", True), ("recv", wake), ("recv", wake)],
         # version switches, types that exist only from 1.5 on (the active table must gate them at every moment, whatever was seen before)
         [("recv", "0;255;3;0;2;1.5.0"), ("recv", "0;255;3;0;16;"), ("recv", "0;255;3;0;15;"), ("recv", "0;255;3;0;2;1.4.1"), ("recv", "0;255;3;0;16;"),
          ("recv", "0;255;3;0;15;"), ("recv", "0;255;3;0;2;2.2.0"), ("recv", "1;255;3;0;32;"), ("recv", "0;255;3;0;2;2.0.0"), ("recv", "1;255;3;0;32;")],
@@ -162,6 +169,19 @@ def search(prop, versions, seed=0, budget=300):
                 hit = [d for d in diffs if prop in d[0]]
                 if hit:
                     return {"version": known, "history": steps, "observed": hit[0][1]}
+    # registries restored from persistence: a node of any version may come back flagged as sleeping (C07's quantifier names 1.x)
+    for ver in versions:
+        for nodever in ("1.4", "1.5.1", "2.0.0", "2.2.0"):
+            state = {"nodes": {1: {"ver": nodever, "sleeping": True, "children": {1: {"type": 6}}}, 2: {"ver": nodever, "sleeping": False, "children": {1: {"type": 6}}}}}
+            steps = [("send", 1, 1, 1, 0, 0, "5", True), ("send", 2, 1, 1, 0, 0, "6", True), ("recv", "1;1;1;0;0;7"), ("send", 1, 1, 1, 0, 0, "8", True),
+                     ("send", 1, 1, 1, 0, 0, "9", False)]
+            try:
+                diffs = rm.run_history(ver, steps, state=state)
+            except Exception as e:  # noqa: BLE001
+                return {"version": ver, "pre_state": _jsonable(state), "history": steps, "observed": f"harness error {e!r}"}
+            hit = [d for d in diffs if prop in d[0]]
+            if hit:
+                return {"version": ver, "pre_state": _jsonable({"nodes": state["nodes"], "pending": {}, "outstanding": []}), "history": steps, "observed": hit[0][1]}
     for ver in versions:
         for known in ([ver] if ver != "1.4" else [None, "1.4"]):
             al = alphabet(known)
